@@ -8,9 +8,9 @@ From Coq Require Import List Arith.
 From BS Require Import Colls CollsProofs.
 Import ListNotations.
 
-Theorem C16_split_off_code_spec : forall l a b, a <= b <= length l ->
+Theorem C16_split_off_code_spec : forall (A : Type) (l : list A) a b, a <= b <= length l ->
   split_off_code l a b = (firstn a l ++ skipn b l, firstn (b - a) (skipn a l)).
-Proof. exact split_off_code_spec. Qed.
+Proof. exact @split_off_code_spec. Qed.
 
 Theorem C16_split_off_partition : forall l a b, conserved (op_split_off l a b) l.
 Proof. exact split_off_conserved. Qed.
